@@ -50,15 +50,30 @@ def seed():
         return 1
 
 
+REPO = os.environ.get("VERIF_REPO") or "/repo"   # developer aid: bin/seeded points the checks at a scratch copy
+
+
 def build_harness(race=False):
-    """Build the harness against /repo's current working tree (hooks on)."""
+    """Build the harness against the repository's current working tree (hooks on)."""
     os.makedirs(BUILD, exist_ok=True)
-    out = os.path.join(BUILD, "harness-race" if race else "harness")
-    shutil.copy("/repo/go.sum", os.path.join(HARNESS_SRC, "go.sum"))
-    cmd = ["go", "build", "-tags", "verif"] + (["-race"] if race else []) + ["-o", out, "."]
-    p = subprocess.run(cmd, cwd=HARNESS_SRC, env=goenv(), capture_output=True, text=True)
+    tag = "" if REPO == "/repo" else "-" + hashlib.sha256(REPO.encode()).hexdigest()[:10]
+    out = os.path.join(BUILD, ("harness-race" if race else "harness") + tag)
+    cmd = ["go", "build", "-tags", "verif"] + (["-race"] if race else [])
+    if REPO == "/repo":
+        shutil.copy("/repo/go.sum", os.path.join(HARNESS_SRC, "go.sum"))
+    else:
+        mod = os.path.join(HARNESS_SRC, "go%s.mod" % tag)
+        with open(mod, "w") as fh:
+            fh.write(open(os.path.join(HARNESS_SRC, "go.mod")).read().replace("=> /repo", "=> " + REPO))
+        shutil.copy(os.path.join(REPO, "go.sum"), mod[:-4] + ".sum")
+        cmd += ["-modfile", mod]
+    cmd += ["-o", out, "."]
+    env = goenv()
+    if REPO != "/repo":
+        env["GOFLAGS"] = "-mod=mod"
+    p = subprocess.run(cmd, cwd=HARNESS_SRC, env=env, capture_output=True, text=True)
     if p.returncode != 0:
-        raise Infra("harness does not build against /repo:\n" + p.stdout + p.stderr)
+        raise Infra("harness does not build against %s:\n" % REPO + p.stdout + p.stderr)
     return out
 
 
